@@ -1198,7 +1198,9 @@ def c11(project, obs, view=None):
     text = (obs.get("fault") or {}).get("text") or ""
     if "returned" in oc:
         out.append(F("C11/fault-silently-ignored", "backend raised %s on event %d but run_suites returned %r" % (cls, k, oc["returned"])))
-    elif text and text not in oc.get("text", ""):
+    elif text.strip() and text.strip() not in oc.get("text", ""):
+        # (the text is looked for without its leading / trailing blanks: KeyError and friends show their argument
+        # repr()-escaped, so a line break at its edge reads "\\n" there — the words of the message are what must survive)
         out.append(F("C11/original-text-lost/" + cls, "caller saw %s(%r) without the original text %r" % (oc["raised"], oc["text"][:200], text)))
     pf = obs.get("pending_failure_at")
     if pf is None:
